@@ -1,4 +1,5 @@
 mod c06;
+mod c11;
 mod c12;
 mod c13;
 mod distprobe;
@@ -169,6 +170,15 @@ fn main() {
             c06::run(
                 arg(a, "--seed").map(|s| s.parse().unwrap()).unwrap_or(1),
                 arg(a, "--n").map(|s| s.parse().unwrap()).unwrap_or(40),
+                &arg(a, "--out").expect("--out"),
+                arg(a, "--only").map(|s| s.parse().unwrap()),
+            )
+        }
+        Some("c11") => {
+            let a = &args[2..];
+            c11::run(
+                arg(a, "--seed").map(|s| s.parse().unwrap()).unwrap_or(1),
+                arg(a, "--n").map(|s| s.parse().unwrap()).unwrap_or(200),
                 &arg(a, "--out").expect("--out"),
                 arg(a, "--only").map(|s| s.parse().unwrap()),
             )
